@@ -7,6 +7,7 @@ CONSTANTS
   MaxDepth = 4
   WithQueries = TRUE
   WithMerge = TRUE
+  Profile = "full"
 VIEW View
 CONSTRAINT Bound
 ACTION_CONSTRAINT LogStep
